@@ -207,6 +207,9 @@ pub struct Profile {
     pub medium_share: u64,
     /// share (in 1/32) of large instances (20-36 variables): long searches, fringes of hundreds of nodes
     pub large_share: u64,
+    /// share (in 1/32) of large *deceptive* table instances (see `F_DECEPTIVE`) solved with a cache: searches of hundreds of
+    /// sub-problems whose fringe holds long runs of nodes invalidated by the cache before they are popped
+    pub deceptive_share: u64,
     /// (kept for compatibility) the 'weak' dominance rule of family T exposed finding H7 (fixed by 0354425): all campaigns use it now
     pub weak_t_dominance: bool,
 }
@@ -223,7 +226,9 @@ pub fn random_spec(rng: &mut Rng, p: &Profile) -> CaseSpec {
     let fam = if p.long_arcs_only { match rng.below(5) { 0 | 1 => 'T', 2 | 3 => 'P', _ => 'Q' } }
         else if p.only_all_impacted { if rng.chance(2, 3) { 'T' } else { 'K' } }
         else { match rng.below(11) { 0..=4 => 'T', 5 | 6 => 'K', 7..=9 => 'P', _ => 'Q' } };
-    let large = p.large_share > 0 && rng.below(32) < p.large_share && !p.long_arcs_only;
+    let deceptive = p.deceptive_share > 0 && rng.below(32) < p.deceptive_share;
+    let fam = if deceptive { 'T' } else { fam };
+    let large = deceptive || (p.large_share > 0 && rng.below(32) < p.large_share && !p.long_arcs_only);
     let medium = !large && p.medium_share > 0 && rng.below(16) < p.medium_share;
     let fam = if large && fam == 'Q' { 'K' } else { fam };
     let size = match fam {
@@ -239,7 +244,7 @@ pub fn random_spec(rng: &mut Rng, p: &Profile) -> CaseSpec {
             if rng.chance(1, 5) { s |= F_ABSORBING; }
             // large: many base states (no 're-convergent' shrinking); half of them without bonus: the states of a layer are the
             // few base states, so that a simple fringe accumulates long runs of stale duplicates
-            if large { s &= !F_RECONVERGENT; if rng.chance(1, 2) { s |= F_NO_BONUS; } }
+            if large { s &= !F_RECONVERGENT; if rng.chance(1, 2) { s |= F_NO_BONUS; } if deceptive { s = (s & !(F_DEPTH_FREE | F_IRRELEVANCE | F_ABSORBING)) | F_DECEPTIVE; } }
             s
         }
         'Q' => if medium { QSZ_MEDIUM } else if p.small && rng.chance(1, 2) { QSZ_SMALL } else { QSZ_TINY },
@@ -262,7 +267,7 @@ pub fn random_spec(rng: &mut Rng, p: &Profile) -> CaseSpec {
         v.rub = RubKind::Slack((rng.next() % 1000) | 1);
         (v, WidthKind::Fixed(if rng.chance(1, 2) { 2 + rng.usize(5) } else { 6 + rng.usize(9) }))
     } else { (variant, width) };
-    let cfg = Cfg::seq(dd, rng.chance(1, 2), if rng.chance(1, 2) { FringeKind::Simple } else { FringeKind::NoDup }, width);
+    let cfg = Cfg::seq(dd, rng.chance(1, 2) || deceptive, if rng.chance(1, 2) { FringeKind::Simple } else { FringeKind::NoDup }, width);
     CaseSpec { family: fam, gen_seed: rng.next() >> 16, size, variant, cfg }
 }
 
